@@ -805,7 +805,7 @@ class SceneMachine(Machine):
     title = "Plasma/beam/laser changes never leave stale derived state"
     quick_runs = 3000
     thorough_runs = 300000
-    quick_deadline = 480
+    quick_deadline = 900
     thorough_deadline = 7200
     per_run_timeout = 120
     components_real = ["cherab.core Plasma/Beam nodes, Composition, ModelManager, PlasmaMaterial, BeamMaterial (compiled)",
